@@ -1714,6 +1714,13 @@ class Exec:
                 if item.optional_vars is not None:
                     st.env[item.optional_vars.id] = v
                 ok = True
+            if not ok and isinstance(ce, ast.Call) and isinstance(ce.func, ast.Name) and isinstance(self.module_env.get(ce.func.id), FuncV) \
+                    and self.module_env[ce.func.id].attrs.get("context_manager") and (item.optional_vars is None or isinstance(item.optional_vars, ast.Name)):
+                # `with Manager(...) as m:` for a manager the contract models (a worker pool): m is what the model returns; leaving the block is not modelled
+                v = self.ev(ce, st)
+                if item.optional_vars is not None:
+                    st.env[item.optional_vars.id] = v
+                ok = True
             if not ok and isinstance(ce, ast.Call) and item.optional_vars is None:
                 try:
                     ok = isinstance(self.ev(ce, st.fork()), OpaqueV)      # a context manager of an opaque library object (display options): sequencing only
